@@ -54,7 +54,7 @@ let kind_s = function
 let chk_of_table (tbl : (char list * chk_res) list) (code : char list) : chk_res =
   match List.assoc_opt code tbl with Some o -> o | None -> ChkOk
 let parse_chk = function
-  | "ok" -> ChkOk | "se" -> ChkSyntaxError | "sw" -> ChkSyntaxWarning | "ow" -> ChkOtherWarning (S O) | "ox" -> ChkOtherExn
+  | "ok" -> ChkOk | "se" -> ChkSyntaxError | "sw" -> ChkSyntaxWarning | "ow" -> ChkOtherWarning (S O) | "ox" -> ChkOtherExn | "ce" -> ChkCaughtExn
   | _ -> failwith "chk"
 
 let rec codes_of_syms = function
